@@ -62,7 +62,6 @@ type wstate struct {
 	refEarly [][]refResult // late-registration tables: reference of the part registered before start-up
 	acc      *acc
 	ident    map[unsafe.Pointer]uint8 // handler value -> its trace code (pos<<3 | index in the chain)
-	fam      int                      // side family of the table being run (famMain: none)
 }
 
 const lastInChain = 7
@@ -294,8 +293,6 @@ func (ws *wstate) call(h fasthttp.RequestHandler, req *fasthttp.Request, tbl []e
 // entries are registered AFTER start-up (app.Handler(), one round of requests judged against the early part),
 // followed by app.RebuildTree().
 func (ws *wstate) runTable(tbl []entry, it *item, sampleIt bool) {
-	a := ws.acc
-	ws.fam = it.fam
 	early := len(tbl) - it.late
 	for _, ci := range it.cfgs {
 		valid := true
@@ -307,7 +304,7 @@ func (ws *wstate) runTable(tbl []entry, it *item, sampleIt bool) {
 		}
 		for ctxKind := 0; ctxKind < 2; ctxKind++ {
 			app := ws.newApp(cfgs[ci], ctxKind == 1)
-			a.apps++
+			ws.acc.apps++
 			ws.registerRange(app, tbl, 0, early)
 			h := app.Handler()
 			if it.late > 0 {
@@ -791,7 +788,7 @@ func main() {
 	if only := os.Getenv("VERIF_C01_ONLY"); only != "" { // developer aid: "side" = the side families, or one family name
 		var keep []item
 		for i, it := range items {
-			if i < nSide && (only == "side" || only == famNames[it.fam]) {
+			if (i < nSide && (only == "side" || only == famNames[it.fam])) || (i >= nSide && only == "main") {
 				keep = append(keep, it)
 			}
 		}
@@ -821,7 +818,15 @@ func main() {
 	// queueing there. The tables are therefore sharded over single-threaded worker processes.
 	switch {
 	case r.IsWorker():
-		export(r, enumerate(r, items))
+		if wp := os.Getenv("VERIF_C01_WORKER_PROFILE"); wp != "" { // developer aid: CPU profile of one worker
+			f, _ := os.Create(wp)
+			_ = pprof.StartCPUProfile(f)
+			export(r, enumerate(r, items))
+			pprof.StopCPUProfile()
+			f.Close()
+		} else {
+			export(r, enumerate(r, items))
+		}
 		r.Finish(core.Evidence{}) // writes the partial and exits
 	case profile != "" || os.Getenv("VERIF_C01_INPROC") != "":
 		export(r, enumerate(r, items))
